@@ -14,6 +14,7 @@ import (
 	"path/filepath"
 	"regexp"
 	"runtime"
+	"sort"
 	"strconv"
 	"strings"
 	"time"
@@ -277,4 +278,51 @@ func WriteNDJSON(path string, recs []interface{}) error {
 		return err
 	}
 	return f.Close()
+}
+
+var reCovAction = regexp.MustCompile(`(?m)^<([A-Za-z_0-9]+) line \d+, col \d+ to line \d+, col \d+ of module ([A-Za-z_0-9]+)>: (\d+):(\d+)`)
+
+// ActionCoverage parses the per-action counts of a `-coverage` run: action -> distinct states it produced.
+func ActionCoverage(output string) map[string]int64 {
+	res := map[string]int64{}
+	for _, m := range reCovAction.FindAllStringSubmatch(output, -1) {
+		n, _ := strconv.ParseInt(m[3], 10, 64)
+		if old, ok := res[m[2]+"."+m[1]]; !ok || n > old { // the statistics are printed more than once: keep the last (largest)
+			res[m[2]+"."+m[1]] = n
+		}
+	}
+	return res
+}
+
+// CoverageGuard model-checks with -coverage and reports the actions that never produced a state (vacuity: a property
+// was not exercised on that action). It records the counts in the evidence under key.
+func (c *Ctx) CoverageGuard(key string, o TLCOpts, ignore ...string) bool {
+	o.Coverage = true
+	r, err := c.RunTLC(o)
+	if err != nil {
+		c.Inconclusive("coverage run of " + o.Module + " failed: " + err.Error())
+		return false
+	}
+	cov := ActionCoverage(r.Output)
+	if len(cov) == 0 {
+		c.Inconclusive("coverage run of " + o.Module + " printed no per-action statistics")
+		return false
+	}
+	skip := map[string]bool{}
+	for _, s := range ignore {
+		skip[s] = true
+	}
+	var zero []string
+	for a, n := range cov {
+		if n == 0 && !skip[a] && !strings.HasSuffix(a, ".Init") {
+			zero = append(zero, a)
+		}
+	}
+	sort.Strings(zero)
+	c.Set(key, map[string]interface{}{"actions": cov, "never_taken": zero})
+	if len(zero) > 0 {
+		c.Inconclusive(fmt.Sprintf("vacuity: actions of %s never taken in the bounded model: %v", o.Module, zero))
+		return false
+	}
+	return true
 }
